@@ -235,7 +235,7 @@ def c16(tier, replay):
     thorough = tier == "thorough"
     bindir = build_examples()
     r = random.Random(SEED * 7919 + 16)
-    per_ex = 24 if not thorough else 100
+    per_ex = 24 if not thorough else 150
     jobs = []      # (run, ex, inst, file/arg, [(width, threads)...])
     if replay:
         rp = json.load(open(replay))["replay"]
